@@ -224,7 +224,9 @@ def c12step (_ : Unit) (op : String) (impl : String) : Unit × String :=
             let newestRes := loadSnapshot ro currentCfg mmap file
             let verdict :=
               if unsafeClass ic then "bad:" ++ ic ++ siteOf newestRes
-              else if isEnc then "ok"
+              else if isEnc then
+                -- an intact encoding whose segments are all loadable must be the snapshot that is opened
+                (if cls.startsWith "ok epoch=2 " && !impl.startsWith "ok epoch=2 " then "bad:intact-file-not-accepted" else "ok")
               else
                 -- a file that is not an encoding must be passed over: the older intact snapshot, or an error
                 let want := match (if o == "-" then Outcome.error Err.noSnapshot else walk Cfg.guarded [older] 1) with
